@@ -125,8 +125,6 @@ def check(repo: Repo, R) -> None:
         for lab, e in cands:
             ok, detail = is_fresh(e, mod, defs, fi, c)
             R.check(ok, rule, key_of(fi, f"{ast.unparse(c)[:60]}::{lab}"), fi.at(c), f"`{ast.unparse(c)[:80]}` — {lab}: {detail}", why=why)
-    if n_sinks < 5:
-        raise AnalysisError(f"anchor-vanished: only {n_sinks} Module.add sinks found in hdl21/elab (expected >= 5)")
     R.floor(rule, 6)
 
     # ---- flatname only returns checked names
@@ -191,5 +189,7 @@ def check(repo: Repo, R) -> None:
                             continue
             R.bad(rule3, key_of(fi, ast.unparse(tgt)[:60]), fi.at(tgt), f"pass writes a module container directly: `{ast.unparse(tgt)}` ({what})",
                   "an object is inserted or removed behind Module.add's back: per-kind views and namespace disagree, or a name is overwritten")
+    if n_sinks < 5 and not any(not o.ok for o in R.obs):
+        raise AnalysisError(f"anchor-vanished: only {n_sinks} Module.add sinks found in hdl21/elab (expected >= 5)")
     if n_pop < 3:
         raise AnalysisError(f"anchor-vanished: paired popitem/namespace.pop idiom found {n_pop} times in hdl21/elab (expected 6 = 3 passes x 2 calls)")
